@@ -101,29 +101,31 @@ P_Format(l)    == \A e \in Range(Ents(l)) : FormatOK(l, e)
 P_Lengths(l)   == \A e \in Range(Ents(l)) : LengthsOK(e)
 P_Crc(l)       == \A e \in Range(Ents(l)) : CrcValid(e)
 P_Count(l)     == \A e \in Range(Ents(l)) : CountOK(e)
-P_Order(l)     == Len(Flat(l)) = Len(l.in)
-SameLen(l)     == Len(Flat(l)) = Len(l.in)
-P_KeyValue(l)  == SameLen(l) => \A k \in Idx(l.in) : Flat(l)[k].key = l.in[k].key /\ Flat(l)[k].value = l.in[k].value
-P_Headers(l)   == SameLen(l) /\ l.fmt = 2 => \A k \in Idx(l.in) : HeadersEq(Flat(l)[k].headers, l.in[k].headers)
-P_Timestamp(l) ==
-  SameLen(l) => \A k \in Idx(l.in) :
-     /\ Flat(l)[k].hasTs
+\* f is Flat(l), passed in so that TLC flattens a line once
+P_Order(l, f)     == Len(f) = Len(l.in)
+P_KeyValue(l, f)  == Len(f) = Len(l.in) => \A k \in Idx(l.in) : f[k].key = l.in[k].key /\ f[k].value = l.in[k].value
+P_Headers(l, f)   == Len(f) = Len(l.in) /\ l.fmt = 2 => \A k \in Idx(l.in) : HeadersEq(f[k].headers, l.in[k].headers)
+P_Timestamp(l, f) ==
+  Len(f) = Len(l.in) => \A k \in Idx(l.in) :
+     /\ f[k].hasTs
      /\ IF l.in[k].ts.zero
-          THEN LimbLE(l.win[1], Flat(l)[k].ts) /\ LimbLE(Flat(l)[k].ts, l.win[2])   \* the library stamps "now"
-          ELSE Flat(l)[k].ts = FloorMs(l.in[k].ts)
+          THEN LimbLE(l.win[1], f[k].ts) /\ LimbLE(f[k].ts, l.win[2])   \* the library stamps "now"
+          ELSE f[k].ts = FloorMs(l.in[k].ts)
 
 FailedProduce(l) ==
+  LET f == Flat(l) IN
   N("P_Accepted", P_Accepted(l)) \cup N("P_Format", P_Format(l)) \cup N("P_Lengths", P_Lengths(l)) \cup N("P_Crc", P_Crc(l))
-  \cup N("P_Count", P_Count(l)) \cup N("P_Order", P_Order(l)) \cup N("P_KeyValue", P_KeyValue(l))
-  \cup N("P_Headers", P_Headers(l)) \cup N("P_Timestamp", P_Timestamp(l))
+  \cup N("P_Count", P_Count(l)) \cup N("P_Order", P_Order(l, f)) \cup N("P_KeyValue", P_KeyValue(l, f))
+  \cup N("P_Headers", P_Headers(l, f)) \cup N("P_Timestamp", P_Timestamp(l, f))
 ProducedOK(l) == FailedProduce(l) = {}
 
 \* not clauses: the driver's two decoders agree, the harness verified each checksum over the range the spec states
 DecodersAgree(l) ==
   l.wire.decodeErr = "" =>
-    /\ Len(Flat(l)) = Len(l.wire.decoded)
+    LET f == Flat(l) IN
+    /\ Len(f) = Len(l.wire.decoded)
     /\ \A k \in Idx(l.wire.decoded) :
-         LET a == Flat(l)[k] b == l.wire.decoded[k] IN
+         LET a == f[k] b == l.wire.decoded[k] IN
            a.off = b.off /\ a.hasTs = b.hasTs /\ (a.hasTs => a.ts = b.ts) /\ a.key = b.key /\ a.value = b.value /\ HeadersEq(a.headers, b.headers)
 CrcRangesAgree(l) == \A e \in Range(Ents(l)) : LengthsOK(e) => CrcRangeOK(e)
 
@@ -147,33 +149,35 @@ FirstCorrupt(bs) == CHOOSE k \in Idx(bs) : bs[k].corrupt /\ \A j \in 1..(k-1) : 
 (* match; whether batches after such a batch are still decoded is left     *)
 (* open.  Conn.ReadBatch/ReadMessage and Reader skip records before the    *)
 (* requested offset.                                                       *)
-ClientChoices(l) ==
-  LET s == Served(l) IN
+ClientChoices(s) ==
     IF ~HasCorrupt(s) THEN {RecsOf(s)}
     ELSE LET c == FirstCorrupt(s) IN
            {RecsOf(SubSeq(s, 1, c - 1)), RecsOf(SubSeq(s, 1, c - 1)) \o RecsOf(SubSeq(s, c + 1, Len(s))), <<>>}
-ConnExpected(l) == SelectSeq(RecsOf(Served(l)), LAMBDA r : r.off >= l.from)
-Choices(l)  == IF l.path = "client" THEN ClientChoices(l) ELSE {ConnExpected(l)}
-Offs(rs)    == [k \in Idx(rs) |-> rs[k].off]
-Matching(l) == {x \in Choices(l) : Offs(x) = Offs(l.got)}
-Chosen(l)   == CHOOSE x \in Matching(l) : TRUE
+ConnExpected(l, s) == SelectSeq(RecsOf(s), LAMBDA r : r.off >= l.from)
+Choices(l, s)  == IF l.path = "client" THEN ClientChoices(s) ELSE {ConnExpected(l, s)}
+Offs(rs)       == [k \in Idx(rs) |-> rs[k].off]
+Matching(l, s) == LET o == Offs(l.got) IN {x \in Choices(l, s) : Offs(x) = o}
 
-F_NoError(l) == ~HasCorrupt(Served(l)) => l.err = ""
-F_Records(l) == Matching(l) # {}                       \* same records, same absolute offsets, same order
-F_Content(l) ==
-  F_Records(l) => \A k \in Idx(l.got) :
-    LET g == l.got[k] x == Chosen(l)[k] IN
-      IF l.path = "client"
-        THEN g.key = x.key /\ g.value = x.value /\ HeadersEq(g.headers, x.headers)
-        ELSE EqUpToNil(g.key, x.key) /\ EqUpToNil(g.value, x.value) /\ HeadersEqUpToNil(g.headers, x.headers)
-F_Timestamp(l) == F_Records(l) => \A k \in Idx(l.got) : Chosen(l)[k].hasTs => l.got[k].ts = Chosen(l)[k].ts
+\* s is Served(l), m is Matching(l, s)
+F_NoError(l, s) == ~HasCorrupt(s) => l.err = ""
+F_Records(m)    == m # {}                       \* same records, same absolute offsets, same order
+F_Content(l, m) ==
+  m # {} => LET x == CHOOSE y \in m : TRUE IN
+    \A k \in Idx(l.got) :
+      LET g == l.got[k] IN
+        IF l.path = "client"
+          THEN g.key = x[k].key /\ g.value = x[k].value /\ HeadersEq(g.headers, x[k].headers)
+          ELSE EqUpToNil(g.key, x[k].key) /\ EqUpToNil(g.value, x[k].value) /\ HeadersEqUpToNil(g.headers, x[k].headers)
+F_Timestamp(l, m) == m # {} => LET x == CHOOSE y \in m : TRUE IN \A k \in Idx(l.got) : x[k].hasTs => l.got[k].ts = x[k].ts
 OffsIn(bs, P(_)) == UNION {{r.off : r \in Range(b.recs)} : b \in {x \in Range(bs) : P(x)}}
-F_ControlHidden(l) == l.path = "client" => {g.off : g \in Range(l.got)} \cap OffsIn(Served(l), LAMBDA b : b.control) = {}
-F_CorruptHidden(l) == l.path = "client" => {g.off : g \in Range(l.got)} \cap OffsIn(Served(l), LAMBDA b : b.corrupt) = {}
+F_ControlHidden(l, s) == l.path = "client" => {g.off : g \in Range(l.got)} \cap OffsIn(s, LAMBDA b : b.control) = {}
+F_CorruptHidden(l, s) == l.path = "client" => {g.off : g \in Range(l.got)} \cap OffsIn(s, LAMBDA b : b.corrupt) = {}
 
 FailedFetch(l) ==
-  N("F_NoError", F_NoError(l)) \cup N("F_Records", F_Records(l)) \cup N("F_Content", F_Content(l))
-  \cup N("F_Timestamp", F_Timestamp(l)) \cup N("F_ControlHidden", F_ControlHidden(l)) \cup N("F_CorruptHidden", F_CorruptHidden(l))
+  LET s == Served(l)
+      m == Matching(l, s) IN
+  N("F_NoError", F_NoError(l, s)) \cup N("F_Records", F_Records(m)) \cup N("F_Content", F_Content(l, m))
+  \cup N("F_Timestamp", F_Timestamp(l, m)) \cup N("F_ControlHidden", F_ControlHidden(l, s)) \cup N("F_CorruptHidden", F_CorruptHidden(l, s))
 FetchedOK(l) == FailedFetch(l) = {}
 
 \* generator promises: canonical payloads, offsets ascending, control/corrupt batches only on the Client.Fetch path
@@ -219,7 +223,7 @@ Next == /\ Active
         /\ i' = i + 1
         /\ LET f == Failed(L) IN
              /\ nfail' = nfail + B(f # {})
-             /\ (f = {} \/ PrintT(<<"C05FAIL", L.id, f>>))
+             /\ IF f = {} THEN TRUE ELSE PrintT(<<"C05FAIL", L.id, f>>)
         /\ stats' = Add(stats, Count(L))
 Spec == Init /\ [][Next]_vars
 
